@@ -15,6 +15,14 @@ def run(ctx, replay):
     ctx.drive(drv, ["c15", trace2, "reverse"], timeout=900, env={"GORACE": "halt_on_error=0 exitcode=0 log_path=" + racelog})
     with open(trace, "a") as f:
         f.write(open(trace2).read())
+    # seven more fresh processes, each starting with the MSM frames of one constellation (what the library sets up on first
+    # use is then set up by GPS, GLONASS, Galileo, SBAS, QZSS, BeiDou or NavIC frames)
+    plain = ctx.build_harness()
+    for t4 in (1074, 1084, 1094, 1104, 1114, 1124, 1134):
+        tf = ctx.path("c15_first_%d.ndjson" % t4)
+        ctx.drive(plain, ["c15", tf, "first", str(t4)], timeout=600)
+        with open(trace, "a") as f:
+            f.write(open(tf).read())
     # and once more in a fresh process whose first use of the library is concurrent
     trace3 = ctx.path("c15_conc.ndjson")
     r3 = ctx.drive(drv, ["c15", trace3, "concurrent"], timeout=900, env={"GORACE": "halt_on_error=0 exitcode=0 log_path=" + racelog}, ok_codes=(0, 1, 2))
@@ -58,7 +66,7 @@ def run(ctx, replay):
         ctx.violation(dict(kind="data-race", where=where[0] if where else "?"), dict(report=rep[:6000]))
     return ctx.finish(
         level="model_checking",
-        rule="one case = (frame of the pool, log level, context): fresh handler, a second fresh process meeting the frames in the opposite order, a third fresh process whose first use of the library is concurrent (incl. 18 message types unknown to every table), after every other frame in seeded random orders on one handler, immediate repetition, "
+        rule="one case = (frame of the pool, log level, context): fresh handler, a second fresh process meeting the frames in the opposite order, seven fresh processes that each start with the MSM frames of one constellation, another fresh process whose first use of the library is concurrent (incl. 18 message types unknown to every table), after every other frame in seeded random orders on one handler, immediate repetition, "
              "8 handlers in parallel goroutines each displaying two by-value copies of every message concurrently (race detector on), and the real appcore fan-out where "
              "consumer 1 displays and overwrites every field of its own copy before consumer 2 looks; pool = 1005/1006, MSM4/MSM7 of all constellations and mask shapes incl. near-twin frames (same cell-mask bits with transposed shape, same masks with other data, same payload under another constellation), "
              "1230/other/unknown types, junk, malformed CRC-valid MSM, CRC failures; distinct = distinct (key, scenario, text digest)",
